@@ -15,9 +15,20 @@ func (c *Coll) BulkInsert(n int) {
 		w.Bulk = true
 		first, last, count := uint32(0), uint32(0), 0
 		contiguous := true
+		keyed := false
+		for _, d := range c.Cols {
+			keyed = keyed || d.Kind == "key"
+		}
 		c.C.Query(func(txn *column.Txn) error {
 			for n > 0 {
-				o, _ := txn.Insert(func(r column.Row) error { return nil })
+				var o uint32
+				if keyed {
+					// filler rows of a keyed collection carry a key of their own ("f<n>") and nothing else
+					c.fillerKeys++
+					txn.InsertKey(fmt.Sprintf("f%d", c.fillerKeys), func(r column.Row) error { o = r.Index(); return nil })
+				} else {
+					o, _ = txn.Insert(func(r column.Row) error { return nil })
+				}
 				if count == 0 {
 					first = o
 				} else if o != last+1 {
